@@ -171,7 +171,7 @@ int main(int argc, char** argv) {
             if (th == 0.0) { d.b = 0; d.c = 0; out.count("axis_parallel"); }
             double off = r.chance(30) ? 0.0 : std::pow(10.0, r.range(-3, 9)); d.tx = off * (r.unit() - 0.5) * 2; d.ty = off * (r.unit() - 0.5) * 2;
             if (off >= 1e8) out.count("offset_ge_1e8");
-            d.r = &r; d.ulpPct = r.chance(35) ? 30 : 0; if (d.ulpPct) out.count("ulp_perturbed");
+            d.r = &r; d.ulpPct = (!cov && r.chance(35)) ? 30 : 0; if (d.ulpPct) out.count("ulp_perturbed");
             ta = geomTokD(A, d); tb = geomTokD(B, d); }
         std::unique_ptr<Geometry> ga, gb;
         try { ga = buildGeom(ta, gf); gb = buildGeom(tb, gf); } catch (...) { out.count("build_rejected"); continue; }
